@@ -4,6 +4,7 @@ import (
 	"fmt"
 	"reflect"
 	"strings"
+	"time"
 
 	z "github.com/Oudwins/zog"
 )
@@ -11,9 +12,9 @@ import (
 // ---- C17: builder chains ---------------------------------------------------------------------------
 
 type bcall struct {
-	coq   string
-	apply func(s *z.StringSchema[string])
-	applyI func(s *z.NumberSchema[int])
+	coq    string
+	apply  func(s *z.StringSchema[string])
+	applyI func(s any)
 }
 
 func (g *Gen) bopts() ([]z.TestOption, string) {
@@ -27,17 +28,18 @@ func (g *Gen) bopts() ([]z.TestOption, string) {
 	return testOpts(&t), fmt.Sprintf("{| o_msg := %s; o_code := %s; o_path := %s |}", CoqOptStr(t.OptMsg), CoqOptStr(t.OptCode), CoqOptStr(t.OptPath))
 }
 
-// NewBuilderCase: a random chain of builder calls on a String or Int schema, run on a random subject.
+// NewBuilderCase: a random chain of builder calls on a String, Int, Int64, Float64, Bool or Time schema
+// (each type has its own copy of the builder methods), run on a random subject.
 func NewBuilderCase(g *Gen, id int) *Case {
 	r := g.R
 	rec := &Recorder{CtxKeys: ctxProbe}
-	isInt := r.P(25)
+	isInt := r.P(45) // (historical name: any kind other than String)
 	var calls []string
 	node := &Node{Kind: KString}
 	var apply []func(s *z.StringSchema[string])
-	var applyI []func(s *z.NumberSchema[int])
+	var applyI []func(s any) // the other kinds: methods are called by name (every builder method is fluent)
 	if isInt {
-		node = &Node{Kind: KInt}
+		node = &Node{Kind: Pick(r, []string{KInt, KInt, KInt64, KFloat64, KBool, KTime})}
 	}
 	n := 1 + r.Intn(8)
 	// the same modifier called twice, the earlier call with options and the later one without (and
@@ -65,25 +67,32 @@ func NewBuilderCase(g *Gen, id int) *Case {
 			apply = append(apply, func(s *z.StringSchema[string]) { s.Not() })
 		case c < 55:
 			if isInt {
-				t := TestSpec{Builtin: Pick(r, []string{"gt", "gte", "lt", "lte", "eq"}), N: int64(r.Intn(10))}
+				var t TestSpec
+				var args []any
+				switch node.Kind {
+				case KInt, KInt64:
+					t = TestSpec{Builtin: Pick(r, []string{"gt", "gte", "lt", "lte", "eq"}), N: int64(r.Intn(10))}
+					args = []any{t.N}
+				case KFloat64:
+					t = TestSpec{Builtin: Pick(r, []string{"gt", "gte", "lt", "lte", "eq"}), F: Pick(r, []float64{0, 1, 2.5, 3.25, 10, -1})}
+					args = []any{t.F}
+				case KBool:
+					t = TestSpec{Builtin: Pick(r, []string{"true", "false", "eq"}), B: r.P(50)}
+					if t.Builtin == "eq" {
+						args = []any{t.B}
+					}
+				case KTime:
+					t = TestSpec{Builtin: Pick(r, []string{"after", "before", "eq"}), T: baseTime.Add(time.Duration(r.Intn(200)-100) * time.Hour)}
+					args = []any{t.T}
+				}
 				o, co := g.bopts()
+				if node.Kind == KBool { // True() / False() / EQ() take no options
+					o, co = nil, "{| o_msg := None; o_code := None; o_path := None |}"
+				}
 				code, params, b := builtin(node, &t)
 				calls = append(calls, fmt.Sprintf("CBuiltin %s %s %s %s", CoqStr(code), coqParams(params), b, co))
-				tt := t
-				applyI = append(applyI, func(s *z.NumberSchema[int]) {
-					switch tt.Builtin {
-					case "gt":
-						s.GT(int(tt.N), o...)
-					case "gte":
-						s.GTE(int(tt.N), o...)
-					case "lt":
-						s.LT(int(tt.N), o...)
-					case "lte":
-						s.LTE(int(tt.N), o...)
-					case "eq":
-						s.EQ(int(tt.N), o...)
-					}
-				})
+				method := map[string]string{"gt": "GT", "gte": "GTE", "lt": "LT", "lte": "LTE", "eq": "EQ", "true": "True", "false": "False", "after": "After", "before": "Before"}[t.Builtin]
+				applyI = append(applyI, func(s any) { callFluent(s, method, args, o) })
 			} else {
 				t := TestSpec{Builtin: Pick(r, []string{"min", "max", "len", "oneof", "prefix", "suffix", "contains", "upper", "digit", "special", "email", "uuid", "url", "match"}),
 					N: int64(r.Intn(6)), S: Pick(r, []string{"a", "ab", "he", "", "1"}), Strs: []string{Pick(r, sampleStrings), Pick(r, sampleStrings)}}
@@ -129,7 +138,7 @@ func NewBuilderCase(g *Gen, id int) *Case {
 			o, co := g.bopts()
 			calls = append(calls, fmt.Sprintf("CTestFunc %d (ut %s) %s", t.ID, coqPred(t.User), co))
 			apply = append(apply, func(s *z.StringSchema[string]) { s.TestFunc(userTest(rec, t, "test"), o...) })
-			applyI = append(applyI, func(s *z.NumberSchema[int]) { s.TestFunc(userTest(rec, t, "test"), o...) })
+			applyI = append(applyI, func(s any) { callFluent(s, "TestFunc", []any{userTest(rec, t, "test")}, o) })
 		case c < 75:
 			o, co := g.bopts()
 			switch forcedOpts {
@@ -142,23 +151,23 @@ func NewBuilderCase(g *Gen, id int) *Case {
 			}
 			calls = append(calls, "CRequired "+co)
 			apply = append(apply, func(s *z.StringSchema[string]) { s.Required(o...) })
-			applyI = append(applyI, func(s *z.NumberSchema[int]) { s.Required(o...) })
+			applyI = append(applyI, func(s any) { callFluent(s, "Required", nil, o) })
 		case c < 81:
 			calls = append(calls, "COptional")
 			apply = append(apply, func(s *z.StringSchema[string]) { s.Optional() })
-			applyI = append(applyI, func(s *z.NumberSchema[int]) { s.Optional() })
+			applyI = append(applyI, func(s any) { callFluent(s, "Optional", nil, nil) })
 		case c < 88:
 			l := g.leaf(node.Kind)
 			calls = append(calls, "CDefault "+CoqLeaf(l))
 			node.ExtraStrs = append(node.ExtraStrs, l.S)
 			apply = append(apply, func(s *z.StringSchema[string]) { s.Default(l.S) })
-			applyI = append(applyI, func(s *z.NumberSchema[int]) { s.Default(int(l.I)) })
+			applyI = append(applyI, func(s any) { callFluent(s, "Default", []any{leafGo(l, node.Kind)}, nil) })
 		case c < 95:
 			l := g.leaf(node.Kind)
 			calls = append(calls, "CCatch "+CoqLeaf(l))
 			node.ExtraStrs = append(node.ExtraStrs, l.S)
 			apply = append(apply, func(s *z.StringSchema[string]) { s.Catch(l.S) })
-			applyI = append(applyI, func(s *z.NumberSchema[int]) { s.Catch(int(l.I)) })
+			applyI = append(applyI, func(s any) { callFluent(s, "Catch", []any{leafGo(l, node.Kind)}, nil) })
 		default:
 			p := PTSpec{ID: g.id(), Op: "noop"}
 			if !isInt {
@@ -171,16 +180,26 @@ func NewBuilderCase(g *Gen, id int) *Case {
 			}
 			calls = append(calls, "CPT "+strings.TrimSuffix(strings.TrimPrefix(coqPTs(&Node{PTs: []PTSpec{p}}), "["), "]"))
 			apply = append(apply, func(s *z.StringSchema[string]) { s.PostTransform(mkPT(rec, p)) })
-			applyI = append(applyI, func(s *z.NumberSchema[int]) { s.PostTransform(mkPT(rec, p)) })
+			applyI = append(applyI, func(s any) { callFluent(s, "PostTransform", []any{z.PostTransform(mkPT(rec, p))}, nil) })
 		}
 	}
 	var schema z.ZogSchema
 	if isInt {
-		s := z.Int()
-		for _, f := range applyI {
-			f(s)
+		switch node.Kind {
+		case KInt:
+			schema = z.Int()
+		case KInt64:
+			schema = z.Int64()
+		case KFloat64:
+			schema = z.Float64()
+		case KBool:
+			schema = z.Bool()
+		case KTime:
+			schema = z.Time()
 		}
-		schema = s
+		for _, f := range applyI {
+			f(schema)
+		}
 	} else {
 		s := z.String()
 		for _, f := range apply {
@@ -189,7 +208,7 @@ func NewBuilderCase(g *Gen, id int) *Case {
 		schema = s
 	}
 	validate := r.P(35)
-	c := &Case{ID: id, Validate: validate, Schema: node, Shape: fmt.Sprintf("chain:%v:%d:%s", isInt, len(calls), strings.Join(firstWords(calls), ",")), PoolMode: "recycled", TypesOK: true, CtxOK: true, Known: true}
+	c := &Case{ID: id, Validate: validate, Schema: node, Shape: fmt.Sprintf("chain:%s:%d:%s", node.Kind, len(calls), strings.Join(firstWords(calls), ",")), PoolMode: "recycled", TypesOK: true, CtxOK: true, Known: true}
 	t := TypeOf(node)
 	var data any
 	dest0 := reflect.Zero(t)
@@ -215,6 +234,34 @@ func NewBuilderCase(g *Gen, id int) *Case {
 	}
 	c.SchemaCoq = fmt.Sprintf("(SPrim (build %s (cdef orc rfc3339 %s) [%s]))", coqKind(node.Kind), coqKind(node.Kind), strings.Join(calls, "; "))
 	return c
+}
+
+// callFluent calls a builder method by name: args are converted to the method's parameter types,
+// the test options are passed as its variadic tail.
+func callFluent(schema any, method string, args []any, opts []z.TestOption) {
+	m := reflect.ValueOf(schema).MethodByName(method)
+	if !m.IsValid() {
+		panic("no builder method " + method + " on " + fmt.Sprintf("%T", schema))
+	}
+	mt := m.Type()
+	var in []reflect.Value
+	for i, a := range args {
+		v := reflect.ValueOf(a)
+		if pt := mt.In(i); v.Type() != pt {
+			if v.Type().ConvertibleTo(pt) {
+				v = v.Convert(pt)
+			} else if pt.Kind() == reflect.Interface && v.Type().Implements(pt) {
+				// passed as is
+			} else {
+				panic(fmt.Sprintf("%s: argument %d is %s, want %s", method, i, v.Type(), pt))
+			}
+		}
+		in = append(in, v)
+	}
+	for _, o := range opts {
+		in = append(in, reflect.ValueOf(o))
+	}
+	m.Call(in)
 }
 
 func firstWords(xs []string) []string {
